@@ -9,6 +9,9 @@ use crate::{
 };
 use send_wrapper::SendWrapper;
 use std::{borrow::Cow, sync::Arc};
+#[cfg(leptos_verif)]
+use crate::renderer::native_dom::JsValue;
+#[cfg(not(leptos_verif))]
 use wasm_bindgen::JsValue;
 
 /// Creates an [`Attribute`] that will set a DOM property on an element.
@@ -470,6 +473,8 @@ impl IntoProperty for Option<Arc<str>> {
 }
 
 prop_type!(JsValue);
+#[cfg(leptos_verif)]
+prop_type!(wasm_bindgen::JsValue);
 prop_type!(usize);
 prop_type!(u8);
 prop_type!(u16);
